@@ -38,18 +38,18 @@ CONFIG = {'gen': ['SmbCommands'],
                'the driver on the same field assignments as the real code for all 114 factory-reachable commands, and the real code is '
                'compared with the round-trip specification (decode(encode v) = v, re-encode identical, slot locality) on internally '
                'consistent assignments. The loop fragment (MirrorLoops: matching loop pairs over list fields — range loop against a loop '
-               'counted by a field read before it or running over a fixed array —, one optional trailing parameter integer, reset by '
-               "Unmarshal and then read under 'WordCount tells which', padding arithmetic on lengths already read, a last read without "
-               'advance) is proved the same way: mirror_loops_roundtrip, mirror_loops_reencode (codec laws on the element types too; '
-               "consistent asks list elements to be fixed points of their Marshal; receiverFits: the receiver's fixed arrays have the "
-               "sender's length — nothing is asked about optional fields any more: optional_stale_reset, the former "
-               'optional_stale_counterexample), smb_loops_roundtrip / smb_loops_reencode for the 108 regenerated MirrorLoops commands, all '
+               'counted by a field read before it or running over a fixed array —, one optional trailing parameter integer or array of '
+               "integers, reset by Unmarshal and then read under 'WordCount tells which', padding arithmetic on lengths already read, a "
+               'last read without advance) is proved the same way: mirror_loops_roundtrip, mirror_loops_reencode (codec laws on the '
+               "element types too; consistent asks list elements to be fixed points of their Marshal; receiverFits: the receiver's fixed "
+               "arrays have the sender's length — nothing is asked about optional fields any more: optional_stale_reset, the former "
+               'optional_stale_counterexample), smb_loops_roundtrip / smb_loops_reencode for the 109 regenerated MirrorLoops commands, all '
                '16 AndX commands among them (loop_mirror_commands: LockAndReadResponse, LockingAndxRequest, OpenAndxRequest, '
                'OpenAndxResponse, QueryInformationResponse, ReadRawRequest, SessionSetupAndxRequest, SessionSetupAndxResponse, '
-               'TransactionRequest, WriteAndxRequest, WriteMpxRequest, WriteRawRequest; mirror_loops_extends; mirror_loops_types_lawful). '
-               'For the 7 commands outside (non_mirror_loops_commands: FindResponse / FindUniqueResponse with the recorded 43-byte window, '
-               'NegotiateRequest — Dialects reads to the end of its input —, NegotiateResponse — null-terminated strings —, RenameRequest '
-               '— unchecked decode —, WriteAndCloseRequest — an optional array —, WriteRequest) the round trip is decided by the '
+               'TransactionRequest, WriteAndCloseRequest, WriteAndxRequest, WriteMpxRequest, WriteRawRequest; mirror_loops_extends; '
+               'mirror_loops_types_lawful). For the 6 commands outside (non_mirror_loops_commands: FindResponse / FindUniqueResponse with '
+               'the recorded 43-byte window, NegotiateRequest — Dialects reads to the end of its input —, NegotiateResponse — '
+               'null-terminated strings —, RenameRequest — unchecked decode —, WriteRequest) the round trip is decided by the '
                'correspondence runs only. slot_locality reads the layout through layoutZ (literal terminator bytes in the data block '
                'passed over), 205 command/field pairs.',
  'level_note': 'Trusted: Lean kernel; axioms propext, Classical.choice, Quot.sound; the extractor and the IR semantics are tied to the Go '
